@@ -15,15 +15,17 @@ Own(D) == (IF InheritAnnots(D) THEN {a \in ToSet(D.annots) : ~IsPrivate(D, a.n) 
 OwnNames(D) == {a.n : a \in Own(D)}
 AllNames(D) == OwnNames(D) \cup NamesN(D.inh)
 IllegalPrivate(D) == \E n \in Names(D.opts.attrs) \cup NamesN(D.opts.typed) : IsPrivate(D, n)
-\* singular-name rule: the singular form, unless it is another managed attribute: then <attr>_item, unless that is one too: error
-ItemName(D, n) == IF D.sing[n] \notin AllNames(D) THEN D.sing[n] ELSE n \o "_item"
-Collision(D, n) == D.sing[n] \in AllNames(D) /\ (n \o "_item") \in AllNames(D)
+\* singular-name rule: the singular form, unless it is another managed attribute or the singular form of another collection:
+\* then <attr>_item (for every attribute involved), unless that is an attribute too: error
 Colls(D) == {a \in Own(D) \cup ToSet(D.inh) : a.fam # "none"}
+Taken(D, n) == D.sing[n] \in AllNames(D) \/ \E b \in Colls(D) : b.n # n /\ D.sing[b.n] = D.sing[n]
+ItemName(D, n) == IF ~Taken(D, n) THEN D.sing[n] ELSE n \o "_item"
+Collision(D, n) == Taken(D, n) /\ (n \o "_item") \in AllNames(D)
 RaisesRuntimeError(D) == \E a \in Colls(D) : Collision(D, a.n)
 Scalar(D, n) == {"with_" \o n, "update_" \o n, "transform_" \o n, "reset_" \o n}
 Elem(D, n)   == {"with_" \o ItemName(D, n), "update_" \o ItemName(D, n), "transform_" \o ItemName(D, n), "without_" \o ItemName(D, n)}
 \* an inherited collection whose singular now names a new attribute gets its element helpers again under the fallback name
-Renamed(D) == {a \in ToSet(D.inh) : a.fam # "none" /\ D.sing[a.n] \in OwnNames(D)}
+Renamed(D) == {a \in ToSet(D.inh) : a.fam # "none" /\ (D.sing[a.n] \in OwnNames(D) \/ \E b \in Own(D) : b.fam # "none" /\ b.n # a.n /\ D.sing[b.n] = D.sing[a.n])}
 Helpers(D) == UNION {Scalar(D, a.n) : a \in Own(D)} \cup UNION {Elem(D, a.n) : a \in {b \in Own(D) : b.fam # "none"}} \cup UNION {Elem(D, a.n) : a \in Renamed(D)}
            \cup {"update", "transform", "reset"}
 Dunders(D) == (IF D.opts.init THEN {"__init__"} ELSE {}) \cup (IF D.opts.repr THEN {"__repr__"} ELSE {}) \cup (IF D.opts.eq THEN {"__eq__"} ELSE {})
